@@ -1836,6 +1836,12 @@ func cmdGen(group, tier string, seed int64) int {
 		g.longP, g.longMax, g.multi = 0.02, 900, true // few programs, many steps each
 	}
 	switch group {
+	case "A-options", "A-options2", "A-rel":
+		// the C17/C03 oracles compare the steps of one program with one another: every step must keep
+		// the arguments it was generated with
+		g.noSib = true
+	}
+	switch group {
 	case "G-class":
 		g.groupClass()
 	case "G-split":
